@@ -98,6 +98,14 @@ type interpreter struct {
 	threadPanic        interface{}
 	killAck            chan struct{}
 	deadlockIsEvent    bool
+	mu                 map[*value]*muState
+	preemptLocks       bool
+	preemptLeft        int
+	inSchedPoint       bool
+	spinLoads          map[*value]int
+	spinThread         *thread
+	spinEpoch          int
+	spinCount          int
 	draining           *thread
 	wg                 map[*value]int
 	lastStack          []string
